@@ -68,7 +68,7 @@ Proof. intros H; induction l as [|x t IH]; simpl; [reflexivity|]. rewrite H, IH.
 Lemma mesh_rotate90_mod4 ip m a b k ref :
   mesh_rotate90 ip m a b (k mod 4) ref = mesh_rotate90 ip m a b k ref.
 Proof.
-  unfold mesh_rotate90, rot_n. rewrite region_rotate90_mod4, odd_mod4.
+  unfold mesh_rotate90, rot_n, rot_bc. rewrite region_rotate90_mod4, odd_mod4.
   destruct (region_rotate90 ip (reg m) a b k ref) as [r'|e]; simpl; [|reflexivity].
   destruct (dim2index (reg m) a); simpl; [|reflexivity].
   destruct (dim2index (reg m) b); simpl; [|reflexivity].
